@@ -1,18 +1,26 @@
 ----------------------------- MODULE HyperExport -----------------------------
-(* Exports the C13 universe: <<template, where>> pairs, the template's space and DNAs (raw trees) to decode. *)
+(* Exports the C13 universe: <<template, where>> pairs, the size of the template's space and DNAs (raw trees) to  *)
+(* decode; for a filtered pair also DNAs of the UNFILTERED space of the same template (the same hyper value object *)
+(* is used with and without the filter); and the typed templates whose binding must be refused (bindok = FALSE). *)
 EXTENDS Hyper, Json, IOUtils
 
 CONSTANTS NumDnas
 
 Salt == atoi(IOEnv.SALT)
 
-Entry(p, i) ==
-  LET sp == TemplateSpec(p[1], p[2])
-      vs == SetToSeq(ValidTrees(sp))
-      pk == SetToSeq(Pick(Len(vs), NumDnas, Salt))
-  IN [index |-> i, tmpl |-> p[1], wh |-> p[2], size |-> Size(sp), dnas |-> [j \in 1..Len(pk) |-> vs[pk[j]]]]
+Sample(sp, n) == LET vs == SetToSeq(ValidTrees(sp))
+                     pk == SetToSeq(Pick(Len(vs), n, Salt))
+                 IN [j \in 1..Len(pk) |-> vs[pk[j]]]
 
-ASSUME LET ps == SetToSeq(HyperUniverse) IN
-       /\ JsonSerialize(IOEnv.OUT_FILE, [i \in 1..Len(ps) |-> Entry(ps[i], i)])
-       /\ PrintT(<<"exported", Len(ps)>>)
+Entry(p, i) ==
+  LET sp == TemplateSpec(p[1], p[2]) IN
+  [index |-> i, tmpl |-> p[1], wh |-> p[2], bindok |-> TRUE, size |-> Size(sp), dnas |-> Sample(sp, NumDnas),
+   dnas_all |-> IF p[2] = "all" THEN <<>> ELSE Sample(TemplateSpec(p[1], "all"), 3)]
+BadEntry(t, i) == [index |-> i, tmpl |-> t, wh |-> "all", bindok |-> FALSE, size |-> 0, dnas |-> <<>>, dnas_all |-> <<>>]
+
+ASSUME LET ps == SetToSeq(HyperUniverse)
+           bs == SetToSeq(TypedBad)
+       IN /\ JsonSerialize(IOEnv.OUT_FILE, [i \in 1..Len(ps) |-> Entry(ps[i], i)]
+                                           \o [i \in 1..Len(bs) |-> BadEntry(bs[i], Len(ps) + i)])
+          /\ PrintT(<<"exported", Len(ps), Len(bs)>>)
 =============================================================================
